@@ -55,6 +55,80 @@ func (e *Enc) calleeOf(c ssa.CallInstruction) (*ssa.Function, string) {
 	return nil, ""
 }
 
+// pureUF is the result of a call of a pure function as an uninterpreted function of the argument leaves and of every
+// heap component of the state the call is made in.
+func (e *Enc) pureUF(key string, resT types.Type, args []Val, st *State) (Val, bool) {
+	if tup, ok := resT.(*types.Tuple); ok && tup.Len() == 0 {
+		return Val{}, false
+	}
+	ls, ok := e.M.leafSorts(resT)
+	if !ok || len(ls) == 0 || !plainData(resT, 0) {
+		return Val{}, false
+	}
+	var argTerms, argSorts []string
+	for _, a := range args {
+		if a.Bad || a.T == nil {
+			return Val{}, false
+		}
+		as, ok := e.M.leafSorts(a.T)
+		if !ok || len(as) != len(a.L) {
+			return Val{}, false
+		}
+		for i, s := range as {
+			argTerms = append(argTerms, a.L[i])
+			argSorts = append(argSorts, e.M.smtSort(s))
+		}
+	}
+	var hs []string
+	for s := range e.knownSorts {
+		hs = append(hs, string(s))
+	}
+	sort.Strings(hs)
+	for _, s := range hs {
+		argTerms = append(argTerms, e.heap(st, Sort(s)))
+		argSorts = append(argSorts, e.heapSort(Sort(s)))
+	}
+	out := Val{T: resT}
+	for i, s := range ls {
+		name := fmt.Sprintf("pf_%s_%d", sanitize(key), i)
+		e.prelude(name, fmt.Sprintf("(declare-fun %s (%s) %s)", name, strings.Join(argSorts, " "), e.M.smtSort(s)))
+		if len(argTerms) == 0 {
+			out.L = append(out.L, name)
+		} else {
+			out.L = append(out.L, "("+name+" "+strings.Join(argTerms, " ")+")")
+		}
+	}
+	return out, true
+}
+
+// plainData: integers, booleans, strings and structs/arrays of them (no references). Only such results of pure
+// functions are named by uninterpreted functions; reference results keep their contract-only description.
+func plainData(t types.Type, depth int) bool {
+	if depth > 4 {
+		return false
+	}
+	switch u := t.Underlying().(type) {
+	case *types.Basic:
+		return u.Kind() != types.UnsafePointer
+	case *types.Struct:
+		for i := 0; i < u.NumFields(); i++ {
+			if !plainData(u.Field(i).Type(), depth+1) {
+				return false
+			}
+		}
+		return true
+	case *types.Array:
+		return plainData(u.Elem(), depth+1)
+	}
+	return false
+}
+
+// noFrameClaimed: a contract of a function of the repository (not a trusted specification) without `pure` or
+// `modifies`: nothing is proved about what it writes, so callers must assume it writes anything.
+func noFrameClaimed(ct *Contract) bool {
+	return ct.Trusted == "" && !ct.Pure && len(ct.Modifies) == 0 && !ct.ModHeap
+}
+
 func (e *Enc) contractFor(key string) *Contract {
 	if key == "" {
 		return nil
@@ -90,7 +164,7 @@ func (e *Enc) callEffect(c ssa.CallInstruction) callEff {
 	}
 	_, key := e.calleeOf(c)
 	if ct := e.contractFor(key); ct != nil {
-		if ct.ModHeap {
+		if ct.ModHeap || noFrameClaimed(ct) {
 			eff.all = true
 			return eff
 		}
@@ -199,6 +273,17 @@ func (e *Enc) call(x *ssa.Call, st *State) {
 	for i, n := range pnames {
 		vars[n] = args[i]
 	}
+	// a call of a closure made in this function: the callee's free variables are the bindings (pointers to the
+	// captured variables), under the names its contract uses
+	if mc, ok := com.Value.(*ssa.MakeClosure); ok && callee != nil {
+		for i, fv := range callee.FreeVars {
+			if i < len(mc.Bindings) {
+				if _, shadow := vars[fv.Name()]; !shadow {
+					vars[fv.Name()] = e.val(mc.Bindings[i])
+				}
+			}
+		}
+	}
 	pre := st.clone()
 	calleePkg := e.Pkg
 	if callee != nil && callee.Pkg != nil {
@@ -215,12 +300,48 @@ func (e *Enc) call(x *ssa.Call, st *State) {
 		e.oblige("call-requires", site+"."+clauseLabel(c, i), x.Pos(), e.reachHere(), t, "precondition of "+key+": "+c.Text)
 		e.emitAssert(e.curBlock, implies(e.reachHere(), e.evalHyp(c.Expr, envPre)))
 	}
-	// modifies
-	if ct.ModHeap {
+	// modifies: a verified callee that claims no frame (neither pure nor modifies) may write anything
+	if ct.ModHeap || noFrameClaimed(ct) {
 		e.havocAll(st)
 	}
 	{
 		for _, mc := range ct.Modifies {
+			if fobj, foff, ft, ok := e.evalModField(mc, envPre); ok {
+				// a field of a struct: only its cells become arbitrary
+				if _, isCells := ft.(*sliceCells); !isCells {
+					if hv := e.havocVal(ft, "modf"); !hv.Bad {
+						e.store(st, ft, fobj, foff, hv)
+						e.emitAssert(-1, e.typeFacts(hv, st))
+						continue
+					}
+				}
+				// a large field (array) or the elements of a slice: the cells of the range become arbitrary, the
+				// others keep their values
+				sorts := map[Sort]bool{}
+				if sc, isCells := ft.(*sliceCells); isCells {
+					e.allSorts(sc.elem, sorts)
+				} else {
+					e.allSorts(ft, sorts)
+				}
+				var ss []string
+				for s := range sorts {
+					ss = append(ss, string(s))
+				}
+				sort.Strings(ss)
+				_, hi := e.modRange(foff, ft)
+				for _, s0 := range ss {
+					s := Sort(s0)
+					h := e.heap(st, s)
+					arr := e.fresh("A_" + s0)
+					e.emitDecl(fmt.Sprintf("(declare-const %s (Array %s %s))", arr, m.smtSort(SI), m.smtSort(s)))
+					e.emitAssert(-1, fmt.Sprintf("(forall ((k %s)) (! (=> (not (and %s %s)) (= (select %s k) (select (select %s %s) k))) :pattern ((select %s k))))",
+						m.smtSort(SI), m.ile(foff, "k"), m.ilt("k", hi), arr, h, fobj, arr))
+					nh := e.fresh("H_" + s0)
+					e.emitDecl(fmt.Sprintf("(define-fun %s () %s (store %s %s %s))", nh, e.heapSort(s), h, fobj, arr))
+					st.H[s] = nh
+				}
+				continue
+			}
 			obj, t := e.evalModTarget(mc, envPre)
 			if obj == "" {
 				e.havocAll(st)
@@ -239,8 +360,14 @@ func (e *Enc) call(x *ssa.Call, st *State) {
 		}
 	}
 	e.bumpAlloc(st)
-	// results
+	// results: a callee that writes nothing (pure) returns a function of its arguments and the heap, so that two calls
+	// in the same state agree and contract expressions can name the result (x.End() in an ensures clause)
 	res := mkResult()
+	if ct.Pure {
+		if v, ok := e.pureUF(key, resT, args, pre); ok {
+			res = v
+		}
+	}
 	e.vals[x] = res
 	e.emitAssert(-1, e.typeFacts(res, st))
 	e.emitAssert(-1, e.notLocal(res))
